@@ -36,7 +36,7 @@ import (
 	"verifharness/internal/sim"
 )
 
-var scenarios = []string{"none", "unselected", "selected", "pending", "pending-restart", "importing", "removing1", "removing2", "removed", "starting", "race-remove", "events"}
+var scenarios = []string{"none", "unselected", "selected", "pending", "pending-restart", "importing", "removing1", "removing2", "removed", "starting", "race-remove", "hints", "events"}
 
 // API methods raced against the completion of the background removal of the selected wallet
 var raceTargets = []string{"GetWalletBalance", "GetAddressBalance", "GetUtxo", "SignRawTransaction", "CreateRawTransaction", "GetTransactionFee", "AutoCreateTransaction", "TxHistory", "GetAddresses", "CreateAddress"}
@@ -255,6 +255,9 @@ func worker(scen string, inst, part, nreq, only int, path string) int {
 			reqs = jsonReq(g.req)
 		}
 		timeout := 6 * time.Second
+		if ml := guarded(timeout, func() string { return modelLine(wd, fmt.Sprintf("%s/%d/%d/%d", scen, inst, part, k), g) }); ml.class != "" && ml.class[0] == 'R' {
+			emit("%s", ml.class)
+		}
 		res := guarded(timeout, func() string { return g.call(wd) })
 		emit("C\t%s\t%d\t%d\t%d\t%s\t%s\t%s\t%s\t%s", scen, inst, part, k, wd.state, g.method, res.class, clean(reqs), clean(res.info))
 		if strings.HasPrefix(res.class, "panic") || res.class == "stall" {
@@ -555,6 +558,10 @@ func parent(tier, outPath string, workers int) int {
 			for i := 0; i < evInst; i++ {
 				jobs = append(jobs, job{s, i, evN})
 			}
+			continue
+		}
+		if s == "hints" {
+			jobs = append(jobs, job{s, 1, 1}, job{s, 2, 1})
 			continue
 		}
 		if s == "race-remove" {
